@@ -879,6 +879,25 @@ example : install exExt false [frame exHb [exDb] ++ [0]] = .writeErr .unexpected
 example : restore exExt (frame exHb [exDb] ++ [0]) = .err .trailingData := by decide
 example : install exExt false [(frame exHb [exDb]).take 5] = .closeErr .incomplete := by decide
 
+/-- the hypotheses of `streamed_snapshot_installs` are jointly satisfiable -/
+example :
+    install exExt false [(frame exHb [exDb]).take 9, (frame exHb [exDb]).drop 9] = .installed exDb [] ∧
+    restore exExt (frame exHb [exDb]) = .ok exDb [] :=
+  streamed_snapshot_installs exExt false exHb exDb [] (by decide) (by decide) (by decide) (by decide)
+    (by intro w hw; cases hw) [(frame exHb [exDb]).take 9, (frame exHb [exDb]).drop 9] (by decide) (by decide)
+
+/-- … and so are those of `installed_db_is_source_or_collide` (source = `exDb`) -/
+example : exDb = exDb ∨ Collide exExt exDb exDb :=
+  installed_db_is_source_or_collide exExt false [frame exHb [exDb]] (by decide) exDb [] (by decide) exDb
+    (by
+      intro hb dbh walhs hd _ _
+      simp only [exExt] at hd
+      split at hd
+      · have := congrArg SnapHeader.payload (Option.some.inj hd)
+        simp only [Payload.full.injEq, Option.some.injEq] at this
+        rw [← this.1]; exact ⟨by decide, rfl⟩
+      · cases hd)
+
 /-- **witness, with a LAWFUL codec** (`escZ`: every byte escaped, frame ended by a marker;
 `escZ_lawful` proves both laws): the payload does not shrink, raft's LimitReader cuts the wire
 form, the decompressor fails and nothing is installed — although nothing was corrupted and the
